@@ -187,6 +187,9 @@ func (r *FnRun) loadTyped(st *State, t types.Type, path string, rd func(path str
 		if !st.ranged[s.Len.S] {
 			st.ranged[s.Len.S] = true
 			r.assumeSliceWF(s)
+			// backing arrays that exist already are older than anything
+			// allocated from now on
+			r.assume(Le(s.Base, st.top))
 		}
 		return s
 	}
@@ -289,6 +292,9 @@ func (r *FnRun) store(st *State, p PtrVal, v Val, where string) {
 		r.storeTyped(p.Elem, p.Path, v, func(path string, s Sort, tm Term) {
 			key := p.Root + "|" + path
 			arr := r.heapArr(st, key, s)
+			if tm.S == Select(arr, p.Ref).S {
+				return // writing back the value just read: the memory is unchanged
+			}
 			na := r.fresh("h_"+shortKey(key), arr.Sort)
 			r.assume(Eq(na, Store(arr, p.Ref, tm)))
 			st.heap[key] = na
